@@ -33,6 +33,7 @@ SWAP_PRED = {"eq": "eq", "ne": "ne", "slt": "sgt", "sgt": "slt", "sle": "sge", "
              "ueq": "ueq", "une": "une", "ord": "ord", "uno": "uno", "true": "true", "false": "false"}
 SWAP_PRED.update({"ult_f": "ugt"})
 
+OPAQUE_PREFIX = "vf_cut_"
 IMPURE_INTRINSICS = ("llvm.assume", "llvm.trap", "llvm.ubsantrap", "llvm.memcpy", "llvm.memset", "llvm.memmove",
                      "llvm.lifetime", "llvm.debugtrap", "llvm.eh.", "llvm.stacksave", "llvm.stackrestore",
                      "llvm.va_", "llvm.experimental.noalias", "llvm.dbg.")
@@ -448,6 +449,8 @@ def _impure(body):
         name = m.group(1)
         if name.startswith("llvm."):
             return name.startswith(IMPURE_INTRINSICS)
+        if name.startswith(OPAQUE_PREFIX):
+            return False        # a CNL function cut out by tc.cut_functions: an uninterpreted pure function of its operands
         return True
     return False
 
